@@ -93,6 +93,7 @@ typedef struct sim_inst {
 	int cur_rule, cur_len, more_prefix, prev_more, prev_len;
 	int did_textop, did_less, did_bufop, did_more, n_ops;
 	int rejected;            /* the previous action ended in REJECT */
+	int at_eof;              /* the last yylex call returned 0 */
 	int provided_input;      /* EOF action gave the scanner something to read */
 	long lex_calls;
 	int cur_top;             /* index of the top-level op being executed */
